@@ -1008,6 +1008,13 @@ func (m *model) observeSyncs(snap *scheduler.VerifSnapshot, now time.Time) {
 		wk.lastRet = now
 		res.retStep = w.stepNo
 		res.retTime = now
+		if wk.reject != "" {
+			if status.Code(res.err) != codes.InvalidArgument {
+				w.failf("C05: worker %d announced size class %d for a predeclared platform queue (%s), but its Synchronize call was answered %v / %v instead of INVALID_ARGUMENT", wk.idx, wk.sizeClass, wk.reject, res.resp, res.err)
+			}
+			m.label("worker_with_bad_size_class_refused")
+			continue
+		}
 		if res.err != nil {
 			m.label("sync_error_" + status.Code(res.err).String())
 			continue
@@ -1168,7 +1175,16 @@ func (m *model) checkRouting(t *taskModel, wk *workerSim, ex *remoteworker.Desir
 	case "retry":
 		want = exp.classes[len(exp.classes)-1]
 	case "bg":
-		want = exp.classes[e.Plan.BgChoice%len(exp.classes)]
+		// The size class list may have changed between Execute and the
+		// completion that asked for the background run: the choice
+		// refers to the list handed to Succeeded().
+		classes := exp.classes
+		for _, l := range w.an.learners {
+			if l.Kind == "background" && l.ActionID == t.actionID && len(l.Classes) > 0 {
+				classes = l.Classes
+			}
+		}
+		want = classes[e.Plan.BgChoice%len(classes)]
 	}
 	if wk.sizeClass != want {
 		w.failf("C05: %s attempt of task %s was selected for size class %d (classes %v), but was handed to worker %d of size class %d", kind, t.actionID, want, exp.classes, wk.idx, wk.sizeClass)
@@ -1462,7 +1478,7 @@ func (m *model) checkQueueSet(now time.Time) {
 				continue
 			}
 			for _, wk := range w.workers {
-				if wk.queue != qi || wk.sizeClass != sc || !wk.everSync {
+				if wk.queue != qi || wk.sizeClass != sc || !wk.everSync || wk.reject != "" {
 					continue
 				}
 				if wk.inFlight != nil {
@@ -1471,6 +1487,23 @@ func (m *model) checkQueueSet(now time.Time) {
 					expected[qn] = fmt.Sprintf("worker %d synchronized at %s, which keeps the queue until %s", wk.idx, wk.lastRet.Sub(m.startAt), until.Sub(m.startAt))
 				}
 			}
+		}
+	}
+	// Size class queues that workers of predeclared platform queues
+	// created for classes of their own.
+	for _, wk := range w.workers {
+		q := w.cfg.Queues[wk.queue]
+		if !q.Predeclared || wk.reject != "" || !wk.everSync {
+			continue
+		}
+		qn := m.queueNameOf(wk)
+		if _, ok := expected[qn]; ok {
+			continue
+		}
+		if wk.inFlight != nil {
+			expected[qn] = fmt.Sprintf("worker %d is synchronizing", wk.idx)
+		} else if until := wk.lastRet.Add(workerTimeout + queueTimeout); now.Before(until) {
+			expected[qn] = fmt.Sprintf("worker %d synchronized at %s, which keeps the queue until %s", wk.idx, wk.lastRet.Sub(m.startAt), until.Sub(m.startAt))
 		}
 	}
 	for qn, why := range expected {
